@@ -128,10 +128,15 @@ impl UsesTypeParams for syn::Fields {
     }
 }
 
-/// Check if an Ident exactly matches one of the sought-after type parameters.
+/// Check if an Ident names one of the sought-after type parameters.
+///
+/// `r#T` and `T` are the same identifier spelled two ways, so the `r#` is not compared.
 impl UsesTypeParams for Ident {
     fn uses_type_params<'a>(&self, _options: &Options, type_set: &'a IdentSet) -> IdentRefSet<'a> {
-        type_set.iter().filter(|v| *v == self).collect()
+        use syn::ext::IdentExt;
+
+        let this = self.unraw();
+        type_set.iter().filter(|v| v.unraw() == this).collect()
     }
 }
 
